@@ -1955,7 +1955,9 @@ def codec_skeleton(body, side):
             if w == "bytes" and k == "call" and not (n.get("p") or "").endswith("::from_reader"):
                 w = None   # a free function named read_exact (pread helper), not a step of the stream codec
             if w and ((side == "w" and is_w) or (side == "r" and is_r)):
-                # evaluate receiver/args first (nested reads in args are rare)
+                # the receiver chain may open a section (toc.section(b"x")?.buf_reader(..)?.read_u8())
+                if k == "mcall":
+                    walk(n["r"], None)
                 if side == "w":
                     arg = n["a"][-1] if n["a"] else None
                     toks.append((w, io_hint(arg)))
@@ -1971,7 +1973,7 @@ def codec_skeleton(body, side):
                     toks.append(("section", lit.get("s", lit.get("bs"))))
             # nested codec calls
             if m in ("encode_into", "decode_from", "encode_into_vec") and ((side == "w") == m.startswith("encode")):
-                toks.append(("codec:" + (n.get("p") or m).replace("encode_into", "X").replace("decode_from", "X"), None))
+                toks.append(("codec", None))
             if k == "mcall":
                 walk(n["r"], bind)
             walk(n.get("a", []), None)
